@@ -742,6 +742,8 @@ func DefaultIntrinsics() map[string]externalFn {
 		px.uuidN++
 		return fmt.Sprintf("verif-uuid-%d", px.uuidN)
 	}
+	m["time.runtimeNano"] = func(fr *frame, a []value) value { return int64(1) }
+	m["time.runtimeNow"] = func(fr *frame, a []value) value { return tuple{int64(1767225600), int32(0), int64(1)} }
 	m["runtime.NumCPU"] = func(fr *frame, a []value) value { return 16 }
 	m["runtime.GOMAXPROCS"] = func(fr *frame, a []value) value { return 16 }
 	m["os.Getenv"] = func(fr *frame, a []value) value { return "" }
